@@ -18,6 +18,7 @@ import Driver.C17
 import Driver.C02
 import Driver.C15
 import Driver.C04
+import Driver.C03
 open AITB
 
 def handleLine (line : String) : String :=
@@ -44,6 +45,7 @@ def handleLine (line : String) : String :=
   | "C02" :: rest => DrvC02.handle rest
   | "C15" :: rest => DrvC15.handle rest
   | "C04" :: rest => DrvC04.handle rest
+  | "C03" :: rest => DrvC03.handle rest
   | _ => "bad-op"
 
 partial def loop (h : IO.FS.Stream) (out : IO.FS.Stream) : IO Unit := do
